@@ -282,6 +282,7 @@ func runC12(c *Ctx) {
 
 	// a datagram operation is parked only when its attempt failed (would block): parking after a successful receive consumes
 	// the datagram without completing the read (the next one overwrites it); parking after a successful send emits it twice
+	errWouldBlock := p.GlobalVar("sonicerrors", "ErrWouldBlock")
 	for _, spec := range []struct{ pkg, typ, fn, transfer, park string }{
 		{"sonic", "packetConn", "asyncReadNow", "ReadFrom", "scheduleRead"},
 		{"sonic", "packetConn", "asyncWriteToNow", "WriteTo", "scheduleWrite"},
@@ -296,6 +297,8 @@ func runC12(c *Ctx) {
 			continue
 		}
 		good, n := true, 0
+		succOK, nSucc := true, 0
+		var succPos token.Pos
 		var at token.Pos
 		for _, path := range paths {
 			if path.Panics {
@@ -317,6 +320,34 @@ func runC12(c *Ctx) {
 					parked, parkPos = true, in.Pos()
 				}
 			}
+			// the mirror image: the attempt's error is handed to the callback only when it is known to be nil or known not
+			// to be the would-block sentinel - a would-block attempt is parked, never reported
+			for _, in := range path.Instrs() {
+				call, ok := in.(ssa.CallInstruction)
+				if !ok || !isDynamicFuncCall(call) || len(call.Common().Args) == 0 || errv == nil {
+					continue
+				}
+				a0 := call.Common().Args[0]
+				if strip(a0) != errv && path.evalEnd(a0) != errv {
+					continue
+				}
+				nSucc++
+				settled := path.nilness(errv) == "nil"
+				for _, l := range path.Lits {
+					op, x, y, isCmp := l.cmp()
+					if !isCmp || op != token.NEQ {
+						continue
+					}
+					for _, pair := range [][2]ssa.Value{{x, y}, {y, x}} {
+						if (strip(pair[0]) == errv || path.eval(pair[0], l.At) == errv) && isLoadOfGlobal(pair[1], errWouldBlock) {
+							settled = true
+						}
+					}
+				}
+				if !settled {
+					succOK, succPos = false, in.Pos()
+				}
+			}
 			if !parked {
 				continue
 			}
@@ -336,6 +367,9 @@ func runC12(c *Ctx) {
 		}
 		if n == 0 {
 			at = fn.Pos()
+		}
+		if nSucc > 0 {
+			c.check(succOK, fn, "would-block never reported", succPos, "the attempt's error reaches the callback only when it is nil or known not to be ErrWouldBlock", spec.fn+" hands the error of "+spec.transfer+" to the callback on a path on which it may be ErrWouldBlock: an operation that only has to wait completes with an error instead of being parked")
 		}
 		c.check(good && n > 0, fn, "park only on failure", at, "the operation is parked only on paths on which the attempt returned an error", spec.fn+" can park the operation although "+spec.transfer+" succeeded: a received datagram is consumed without completing the read (the next one overwrites it), a sent datagram is sent again by the handler")
 	}
